@@ -262,6 +262,49 @@ def length_obligations(pid, tier, seed):
                                            'cell_ops': ['set', 'change', '__call__', '__getstate__', '__setstate__', 'state round-trip into a live object']}}
 
 
+# ---------------------------------------------------------------------------
+# C07: three-way merge of leaves
+
+def merge_obligations(pid, tier, seed):
+    obs = []
+    t = 300 if tier == 'quick' else 1800
+    mx = 2 if tier == 'quick' else 3
+    for kind in ('Bucket', 'Set', 'BTree', 'TreeSet'):
+        is_set = kind in ('Set', 'TreeSet')
+        for na in range(0, mx + 1):
+            for nb in range(0, mx + 1):
+                for nc in range(0, mx + 1):
+                    tot = na + nb + nc
+                    if kind in ('BTree', 'TreeSet') and (tier == 'quick' and tot > 4):
+                        continue     # the tree entry points unwrap and delegate to the leaf code
+                    if tier != 'quick' and not is_set and tot > 7:
+                        continue
+                    args, pre = [], []
+                    for pk, pv, n in (('o', 'vo', na), ('c', 'vc', nb), ('n', 'vn', nc)):
+                        for i in range(n):
+                            args.append(('%s%d' % (pk, i), 'int'))
+                            if not is_set:
+                                args.append(('%s%d' % (pv, i), 'int'))
+                        if n > 1:
+                            pre.append(' < '.join('%s%d' % (pk, i) for i in range(n)))
+                    extra = tot <= 3
+                    if extra:
+                        args += [('so', 'int'), ('sc', 'int'), ('sn', 'int'), ('eo', 'bool'), ('ec', 'bool'), ('en', 'bool')]
+                        pre += ['0 <= so < 3', '0 <= sc < 3', '0 <= sn < 3']
+                    elif tot <= 5:
+                        args += [('so', 'int'), ('sn', 'int')]
+                        pre += ['0 <= so < 2', '0 <= sn < 2']
+                    P = dict(family='OO', kind=kind, n=[na, nb, nc])
+                    obs.append(dict(id='%s/%s/%d%d%d' % (pid, kind, na, nb, nc), mod='h_merge', fn='merge_case', nk=0,
+                                    args=args, pre=pre, params=P, timeout=t))
+        obs.append(dict(id='%s/%s/malformed' % (pid, kind), mod='h_merge', fn='malformed_case', nk=0,
+                        args=[('i0', 'int'), ('i1', 'int'), ('i2', 'int')],
+                        pre=['0 <= i0 < 12', '0 <= i1 < 12', '0 <= i2 < 12'], params=dict(family='OO', kind=kind), timeout=t))
+    return {'obligations': obs, 'bounds': {'max_keys_per_state': mx, 'values': 'symbolic, compared through ==/<',
+                                           'successor_links': 'selector over {none, R1, R2} per state when total keys <= 3, '
+                                           '{none, R1} for original/new when <= 5', 'malformed_palette': 12}}
+
+
 COMMON_ASSUME = [
     'key objects are observed by the containers only through rich comparison, identity and None-ness '
     '(true for the object-key templates; native-key families are covered by their own obligations where stated)',
@@ -323,5 +366,21 @@ PROPS = {
                     'copied and loaded into a live object.',
         functions=['BTrees.Length.Length.__init__/__getstate__/__setstate__/set/change/__call__/_p_resolveConflict'],
         assumptions=['pickle and copy are exercised on one solver-chosen witness per path (pickle realises symbols)'],
+    ),
+    'C07': dict(
+        families=['OO'],
+        gen=lambda tier, seed: merge_obligations('C07', tier, seed),
+        explanation='_p_resolveConflict of the real compiled and pure-Python Bucket/Set (and of BTree/TreeSet on the embedded '
+                    'one-leaf form) is executed on three states whose keys and values are symbolic (each key list strictly '
+                    'increasing; every order relation between keys of different states and every value equality is a solver '
+                    'decision), with solver-chosen successor links and None-for-empty states, and compared with a declarative '
+                    'three-way merge (refuse iff a side is empty, the change sets intersect, a side removed the then-smallest '
+                    'key, the successor links differ, or the result is empty). C and Python must take the same decision with '
+                    'the same reason code. Malformed and multi-leaf states: solver-chosen selectors into a palette.',
+        functions=['_OOBTree.so: bucket_merge, merge_output, merge_error, _bucket__p_resolveConflict, bucket__p_resolveConflict, '
+                   'BTree__p_resolveConflict, get_bucket_state, initSetIteration/nextBucket/nextSet', 'BTrees._base: '
+                   'Bucket._p_resolveConflict, Set._p_resolveConflict, _Tree._p_resolveConflict, _get_simple_btree_bucket_state, _SetIteration'],
+        assumptions=['persistent references to the successor leaf are modelled by plain objects compared by identity, one instance '
+                     'per reference per resolution (as ZODB\'s conflict resolution supplies them)'],
     ),
 }
